@@ -384,7 +384,7 @@ func (w *gcWorld) addJunk(dir string) {
 	sort.Strings(partialDirs)
 	for i := 0; i < w.prof.Junk && len(dirs) > 0; i++ {
 		d := dirs[r.Intn(len(dirs))]
-		switch r.Intn(8) {
+		switch r.Intn(9) {
 		case 0: // temp file of a crashed durable write
 			os.WriteFile(filepath.Join(d, fmt.Sprintf(".%03d%09d", r.Intn(256), r.Intn(1e9))), []byte("partial write"), 0o600)
 			w.sim.Probe("junk.tempfile")
@@ -444,6 +444,26 @@ func (w *gcWorld) addJunk(dir string) {
 					w.sim.Probe("junk.missing-full")
 					w.broken = true
 				}
+			}
+		case 8: // a partial on the right edge of the published tree at level >= 1 whose full tile is
+			// already there (what a lock store ahead by a whole higher-level tile leaves behind);
+			// the guard "index below size/256^(L+1)" alone protects it
+			var edge []string
+			for _, pd := range partialDirs {
+				if _, err := os.Lstat(strings.TrimSuffix(pd, ".p")); err != nil && !strings.Contains(pd, "/tile/0/") &&
+					!strings.Contains(pd, "/tile/data/") && !strings.Contains(pd, "/tile/names/") {
+					edge = append(edge, pd)
+				}
+			}
+			if len(edge) > 0 {
+				full := strings.TrimSuffix(edge[r.Intn(len(edge))], ".p")
+				b := make([]byte, 256*32)
+				for i := range b {
+					b[i] = byte(r.Intn(256))
+				}
+				os.WriteFile(full, b, 0o644)
+				w.sim.Probe("junk.full-beside-edge-partial")
+				w.broken = true
 			}
 		case 4: // a file with a partial-like name where a directory is expected
 			os.WriteFile(filepath.Join(d, "999.p"), []byte("x"), 0o644)
